@@ -24,6 +24,16 @@ func vpTree(n int) []*Node {
 		depth[i] = depth[p] + 1
 		nodes[p].Children = append(nodes[p].Children, nodes[i])
 	}
+	// leaves: Children nil (as the Reader builds them), or an empty non-nil
+	// slice (a node built with Children: []*Node{} or pruned with
+	// Children[:0]); emptyKids=1 all leaves, 2 a nondeterministic subset
+	if ek := vpCaseOr("emptyKids", 0); ek > 0 {
+		for i := 0; i < n; i++ {
+			if len(nodes[i].Children) == 0 && (ek == 1 || vpChoice("ek"+vpDigit(i), 2) == 1) {
+				nodes[i].Children = make([]*Node, 0, 1)
+			}
+		}
+	}
 	return nodes
 }
 
